@@ -92,3 +92,71 @@ def rename_literals(lits, mapping: Dict[str, str]) -> Set[Tuple[str, bool]]:
             a = a.replace(k, v)
         out.add((a, p))
     return out
+
+
+# ------------------------------------------------------------------ structural locators (name independent)
+def loops_where(fn_node, iter_pred: Callable[[str], bool]) -> List[ast.For]:
+    return [n for n in ast.walk(fn_node) if isinstance(n, ast.For) and iter_pred(unparse(n.iter))]
+
+
+def target_name(loop: ast.For) -> Optional[str]:
+    return loop.target.id if isinstance(loop.target, ast.Name) else None
+
+
+def facts_in_iteration(fn_node, loop: ast.For, site_pred: Callable[[ast.AST], bool], assume: Dict[str, bool] = None):
+    """[(statement, Facts)] for statements inside `loop`: facts that hold on every path from the loop
+    head (start of one iteration) to the statement"""
+    cfg = CFG(fn_node)
+    head = cfg.node_for(loop)
+    init = Facts()
+    for k, v in (assume or {}).items():
+        init = init.assume(ast.parse(k, mode='eval').body, v) or init
+    st = cfg.must_facts(start=head, init=init, start_label='loop')
+    inside = {id(x) for s in loop.body for x in ast.walk(s)}
+    out = []
+    for n in cfg.nodes:
+        if n.kind == 'stmt' and id(n.ast) in inside and site_pred(n.ast):
+            out.append((n.ast, st.get(n.id)))
+    return out
+
+
+def calls_in_stmt(st, name: str) -> List[ast.Call]:
+    out = []
+    for n in ast.walk(st):
+        if isinstance(n, ast.Call):
+            f = n.func
+            nm = f.attr if isinstance(f, ast.Attribute) else (f.id if isinstance(f, ast.Name) else '')
+            if nm == name:
+                out.append(n)
+    return out
+
+
+def own_stmt(st) -> bool:
+    """simple (non-compound) statement"""
+    return not isinstance(st, (ast.If, ast.For, ast.While, ast.Try, ast.With, ast.FunctionDef, ast.ClassDef))
+
+
+def known(fx: Optional[Facts], formula: str) -> Optional[bool]:
+    if fx is None:
+        return True          # unreachable site: vacuous
+    return fx.known(formula)
+
+
+def defining_text(fn_node, name: str, depth=3) -> str:
+    """text of every expression assigned to local `name`, with the locals it mentions expanded (bounded)"""
+    out = []
+    for n in ast.walk(fn_node):
+        v = None
+        if isinstance(n, ast.Assign) and any(isinstance(t, ast.Name) and t.id == name for t in n.targets):
+            v = n.value
+        elif isinstance(n, ast.AugAssign) and isinstance(n.target, ast.Name) and n.target.id == name:
+            v = n.value
+        if v is not None:
+            t = unparse(v)
+            if depth > 0:
+                for m in {x.id for x in ast.walk(v) if isinstance(x, ast.Name)} - {name}:
+                    sub = defining_text(fn_node, m, depth - 1)
+                    if sub:
+                        t += ' <- ' + sub
+            out.append(t)
+    return ' | '.join(out)
